@@ -116,6 +116,29 @@ Proof.
   - destruct (next - c_now c <=? 0) eqn:E; [discriminate|]. b2p. intros _. exists next. repeat split. lia.
 Qed.
 
+
+(* IsFinished (the Check section of Model/Instance.v: `left_of = 0`): ctx done -> true; otherwise sched.Left() == 0.
+   The oracle answers Left() with [left]. *)
+Lemma find_IsFinished : find_func "Waiter.IsFinished" gen_prog_waiter = Some gen_Waiter_IsFinished.
+Proof. reflexivity. Qed.
+
+Definition left_ext (left : Z) : string -> list val -> option (list val) :=
+  fun f _ => if String.eqb f "w.sched.Left" then Some [VInt left] else None.
+
+Lemma bridge_IsFinished sel left fuel :
+  run gen_prog_waiter (left_ext left) fuel "Waiter.IsFinished" [VInt sel]
+  = Ret [VInt (if sel =? 0 then 1 else b2z (left =? 0))].
+Proof.
+  rewrite (run_mono _ _ 0 fuel); [| lia |];
+    unfold run; rewrite find_IsFinished; unfold gen_Waiter_IsFinished, left_ext;
+    cbn [f_body f_params]; imp_run; try reflexivity; discriminate.
+Qed.
+
+Lemma bridge_IsFinished_selects :
+  gen_Waiter_IsFinished_selects = [["ctx.Done"; "default"]].
+Proof. reflexivity. Qed.
+
 Print Assumptions bridge_IsSlowDown.
+Print Assumptions bridge_IsFinished.
 Print Assumptions bridge_Wait.
 Print Assumptions bridge_Wait_timer.
